@@ -556,6 +556,98 @@ pub fn gen_case(rng: &mut Rng) -> Case {
     Case { first, idle_ms, events }
 }
 
+/// "a close from the peer is answered with a close, after already queued frames are flushed":
+/// `n` sessions are begun over a pipe of `pipe` bytes; the peer stops reading; the application ends all
+/// sessions (their end frames queue up behind a write that cannot complete); the peer sends its close
+/// (with an error or not) and only then reads again.  Returns the kinds of frames the peer then reads,
+/// up to the end of the stream.
+pub fn run_flush_before_close(n: usize, pipe: usize, with_error: bool) -> Result<Vec<String>, String> {
+    let rt = paused_runtime();
+    rt.block_on(async move {
+        let (cio, pio) = tokio::io::duplex(pipe);
+        let mut peer = Peer::new(pio);
+        let (go_tx, go_rx) = tokio::sync::oneshot::channel::<()>();
+        let client = tokio::spawn(async move {
+            let mut conn = Connection::builder().container_id("c12-flush").open_with_stream(cio).await.map_err(|e| format!("open: {:?}", e))?;
+            let mut ss = vec![];
+            for _ in 0..n {
+                ss.push(Session::begin(&mut conn).await.map_err(|e| format!("begin: {:?}", e))?);
+            }
+            let _ = go_rx.await;
+            let mut tasks = vec![];
+            for mut s in ss {
+                tasks.push(tokio::spawn(async move {
+                    let _ = tokio::time::timeout(Duration::from_secs(5), s.end()).await;
+                }));
+            }
+            for t in tasks {
+                let _ = t.await;
+            }
+            let _ = tokio::time::timeout(Duration::from_secs(5), conn.close()).await;
+            Ok::<(), String>(())
+        });
+        peer.accept_open(&PeerOpen::default()).await.map_err(|e| format!("{:?}", e))?;
+        peer.recv_timeout = Duration::from_secs(30);
+        let mut begun = 0;
+        while begun < n {
+            match peer.recv().await {
+                Ok(Incoming::Frame { channel, performative: Performative::Begin(_), .. }) => {
+                    let b = Begin { remote_channel: Some(channel), next_outgoing_id: 0, incoming_window: 1000, outgoing_window: 1000, handle_max: Handle(100), offered_capabilities: None, desired_capabilities: None, properties: None };
+                    peer.send(channel, Performative::Begin(b), &[]).await.map_err(|e| format!("{:?}", e))?;
+                    begun += 1;
+                }
+                Ok(_) => {}
+                Err(e) => return Err(format!("peer: {:?}", e)),
+            }
+        }
+        // stop reading; let the application end its sessions
+        let _ = go_tx.send(());
+        tokio::time::sleep(Duration::from_millis(50)).await;
+        let error = if with_error { Some(definitions::Error::new(AmqpError::InternalError, Some("scripted".to_string()), None)) } else { None };
+        tokio::time::timeout(Duration::from_secs(5), peer.send(0, Performative::Close(Close { error }), &[]))
+            .await
+            .map_err(|_| "the pipe is too small for the peer's close".to_string())?
+            .map_err(|e| format!("{:?}", e))?;
+        tokio::time::sleep(Duration::from_millis(50)).await;
+        let mut seen = vec![];
+        loop {
+            match peer.recv().await {
+                Ok(Incoming::Frame { channel, performative, .. }) => {
+                    let k = kind_of(channel, &performative);
+                    let is_close = matches!(performative, Performative::Close(_));
+                    seen.push(k);
+                    if is_close {
+                        // anything after the close?
+                        peer.recv_timeout = Duration::from_millis(200);
+                    }
+                }
+                Ok(Incoming::Empty { .. }) => seen.push("empty".into()),
+                Ok(_) => {}
+                Err(_) => break,
+            }
+        }
+        let _ = client.await;
+        Ok(seen)
+    })
+}
+
+pub fn check_flush_before_close(n: usize, seen: &[String]) -> Option<(String, String)> {
+    let close_at = seen.iter().position(|k| k.starts_with("close"));
+    let ends_before = seen.iter().take(close_at.unwrap_or(seen.len())).filter(|k| k.ends_with('e') && k.starts_with('f')).count();
+    match close_at {
+        None => Some(("peer-close-not-answered".into(), format!("the peer's close was not answered with a close; the peer read {:?}", seen))),
+        Some(i) => {
+            if i + 1 != seen.len() {
+                return Some(("frame-after-close".into(), format!("frames after the close: {:?}", &seen[i + 1..])));
+            }
+            if ends_before != n {
+                return Some(("queued-frames-not-flushed-before-close".into(), format!("{} sessions had been ended by the application when the peer's close arrived, but only {} end frames were written before the answering close: {:?}", n, ends_before, seen)));
+            }
+            None
+        }
+    }
+}
+
 pub fn main(opts: &Opts) {
     let mut report = Report::new(
         "C12",
@@ -567,6 +659,24 @@ pub fn main(opts: &Opts) {
     );
     if let Some(path) = &opts.replay {
         let j: J = serde_json::from_str(&std::fs::read_to_string(path).expect("read")).expect("json");
+        if let Some(c) = j.get("flush_before_close") {
+            let n = c.get("sessions").and_then(|x| x.as_u64()).unwrap_or(3) as usize;
+            let pipe = c.get("pipe").and_then(|x| x.as_u64()).unwrap_or(16) as usize;
+            let we = c.get("with_error").and_then(|x| x.as_bool()).unwrap_or(false);
+            let r = run_flush_before_close(n, pipe, we);
+            println!("{:?}", r);
+            match r.as_ref().ok().and_then(|s| check_flush_before_close(n, s)) {
+                Some((k, d)) => {
+                    println!("REPLAY: property violated [{}]: {}", k, d);
+                    std::process::exit(1);
+                }
+                None if r.is_ok() => {
+                    println!("REPLAY: property holds on this scenario");
+                    std::process::exit(0);
+                }
+                None => std::process::exit(1),
+            }
+        }
         if let Some(case) = j.get("case").and_then(Case::from_json) {
             let obs = run(&case);
             for l in &obs.trace {
@@ -638,6 +748,23 @@ pub fn main(opts: &Opts) {
             }
             lines.push("C result".into());
             segs.push((start, case, obs));
+        }
+    }
+    // queued frames are flushed before a close from the peer is answered
+    // (the pipe has to take the peer's close while the client is not reading: a close with an error needs 128 bytes)
+    for (n, pipe, with_error) in [(1usize, 16usize, false), (3, 16, false), (12, 16, false), (12, 64, false), (40, 32, false), (5, 256, true), (12, 128, true), (40, 128, true)] {
+        {
+            report.evaluations += 1;
+            report.count("flush_before_close_cases");
+            report.nontrivial_case(fnv(&format!("flush{}/{}/{}", n, pipe, with_error)));
+            match run_flush_before_close(n, pipe, with_error) {
+                Ok(seen) => {
+                    if let Some((key, desc)) = check_flush_before_close(n, &seen) {
+                        report.finding(Finding { kind: "violation", key, description: desc, replay: json!({"property": "C12", "module": "connlife", "flush_before_close": {"sessions": n, "pipe": pipe, "with_error": with_error}}) });
+                    }
+                }
+                Err(e) => report.finding(Finding { kind: "violation", key: "scenario-failed".into(), description: e, replay: json!({"property": "C12", "module": "connlife", "flush_before_close": {"sessions": n, "pipe": pipe, "with_error": with_error}}) }),
+            }
         }
     }
     if driver_available() {
